@@ -426,14 +426,15 @@ def r1_tables_agree(ctx):
                     and isinstance(n.targets[0], ast.Name)}
         if default in assigned:
             return default
-        stores = [s for s in loop.body if isinstance(s, ast.Assign)
+        stores = [s for s in ast.walk(loop) if isinstance(s, ast.Assign)
                   and isinstance(s.targets[0], ast.Subscript)
                   and isinstance(s.value, ast.Name)]
         cur = stores[-1].value.id if stores else default
         for _ in range(4):
             if cur in assigned:
                 return cur
-            nxt = [s.value.id for s in loop.body if isinstance(s, ast.Assign)
+            nxt = [s.value.id for s in ast.walk(loop)
+                   if isinstance(s, ast.Assign)
                    and norm(s.targets[0]) == cur
                    and isinstance(s.value, ast.Name)]
             if not nxt:
